@@ -1179,7 +1179,11 @@ func c16Run(t *testing.T, x bool) {
 		nCases = 8000
 	}
 	if x {
+		// 200 quick / 3000 thorough (every case runs on two stores)
 		nCases = nCases * 5 / 8
+		if tier == "thorough" {
+			nCases = 3000
+		}
 	}
 	if v := os.Getenv("VERIF_C16_CASES"); v != "" {
 		nCases, _ = strconv.Atoi(v)
@@ -1195,46 +1199,49 @@ func c16Run(t *testing.T, x bool) {
 	bufs := make([]bytes.Buffer, nCases)
 	var next int64 = -1
 	var wg sync.WaitGroup
+	// Databases live in the scope of a subtest so that their temp dirs are
+	// removed as soon as they are no longer used (one "epoch" subtest per
+	// shared database of up to perDB cases, one nested subtest per case for
+	// the databases of own-database cases), not only when the whole test
+	// ends. t.Run may be called from several goroutines.
+	fresh := func(tt *testing.T) (DB, DB) {
+		d, _ := NewTestDB(tt)
+		if x {
+			return d, c16NewKV(tt)
+		}
+		return d, nil
+	}
 	for wk := 0; wk < workers; wk++ {
 		wg.Add(1)
 		go func() {
 			defer wg.Done()
-			var db, db2 DB
-			fresh := func() (DB, DB) {
-				d, _ := NewTestDB(t)
-				if x {
-					return d, c16NewKV(t)
-				}
-				return d, nil
-			}
-			done := 0
-			for {
-				i := int(atomic.AddInt64(&next, 1))
-				if i >= nCases {
-					return
-				}
-				if done%perDB == 0 {
-					// a fresh database: KVStore (default build)
-					// or SQLStore on sqlite (`-tags
-					// test_db_sqlite`), from the package's own
-					// test constructor.
-					db, db2 = fresh()
-				}
-				done++
-				c := &c16{
-					t: t, w: bufio.NewWriter(&bufs[i]), db: db, db2: db2,
-					ctx: context.Background(), n: i + 1,
-					rng: rand.New(rand.NewSource(seed*1000003 + int64(i))),
-					newDB: fresh,
-				}
-				if i%10 == 9 && !x {
-					// every tenth case: concurrent tier
-					c.genConcCase()
-				} else {
-					c.genCase(c.rng.Intn(100) < 40)
-				}
-				c.w.Flush()
-				db, db2 = c.db, c.db2
+			more := true
+			for more {
+				t.Run("epoch", func(et *testing.T) {
+					db, db2 := fresh(et)
+					for done := 0; done < perDB; done++ {
+						i := int(atomic.AddInt64(&next, 1))
+						if i >= nCases {
+							more = false
+							return
+						}
+						et.Run("case", func(ct *testing.T) {
+							c := &c16{
+								t: ct, w: bufio.NewWriter(&bufs[i]), db: db, db2: db2,
+								ctx: context.Background(), n: i + 1,
+								rng: rand.New(rand.NewSource(seed*1000003 + int64(i))),
+								newDB: func() (DB, DB) { return fresh(ct) },
+							}
+							if i%10 == 9 && !x {
+								// every tenth case: concurrent tier
+								c.genConcCase()
+							} else {
+								c.genCase(c.rng.Intn(100) < 40)
+							}
+							c.w.Flush()
+						})
+					}
+				})
 			}
 		}()
 	}
